@@ -22,6 +22,7 @@ import Emboss.Lemmas.FmtNormalOK
 import Emboss.Lemmas.FmtSeparableOK
 import Emboss.Lemmas.FmtIdem
 import Emboss.Lemmas.FmtCommentOK
+import Emboss.Lemmas.FmtBlank
 namespace Emboss.Fmt
 open Emboss.Generated.FmtTable
 
@@ -275,6 +276,87 @@ example : equivC exTree exTree2 = true ∧ exTree ≠ exTree2 := by
 example : formatTree 3 exTree2 = some (.str "-- hi\n# c\n".toList) :=
   C11_format_fixed_point_partial 3 exTree exTree2 _ (by decide +kernel) (by decide +kernel)
     (by decide +kernel) (by decide +kernel)
+
+/-! ## Blank lines (round 3) -/
+
+/-- **Formatting factors through the blank-line normal form**: two parse trees that differ
+only in the *blank lines at the two ends of a block of comment lines* — under an `eol` node
+(`_eol`) or at the head of the module (`_module`); `EquivB`, Spec/FmtEquivB.lean — are
+formatted to the same text (indeed every subtree folds to the same value), for every
+production and indent width; no well-formedness is needed.  So the blank-line structure of
+the output is a function of the remaining structure only: source blank lines other than
+those between two comment lines of one block never reach the output, and every blank line
+the formatter emits (section breaks, separators between types / fields / values, the blank
+line at a dedent) is computed from the rows.  Blank lines *between* two comment lines of a
+block are kept as they are (they are not blank-line policy; `equivC`/`EquivB` keep them). -/
+theorem C11_format_factors_blank (iw : Nat) (t t' : Tree) (h : EquivB formatters t t') :
+    formatTree iw t' = formatTree iw t :=
+  fold_equivB formatters iw h
+
+/-- **Idempotence, partial**: if `t` is formatted to `out`, then every tree `t2` that differs
+from `t` only by (`equivC`) the texts of layout tokens and trailing blanks of
+documentation / comments and (`EquivB`) blank lines at the ends of comment blocks is
+formatted to `out` as well.  With `t2` := the parse tree of `out` this is
+`fmt (fmt t) = fmt t`.
+
+Full statement wanted: `∀ t, fmt (parse (fmt t)) = fmt t`.  The remaining hypothesis —
+"the parse tree of `out` is `t` up to `equivC` and `EquivB`" — says: (a) `out` tokenizes to
+the content tokens of `t`, line by line (`C11_retokenize_partial` below gives the
+tokenizer-side half of this for rendered rows); (b) every blank line of `out` that is not
+between two comment lines of a block stands directly after an end of line that the grammar
+attaches to an `eol` (or at the head of the module), which is where the unique parse of
+the token sequence (C08: the grammar is LR(1), hence unambiguous) must put it.  The harness
+evaluates the hypothesis on every case (`idempotent_theorem_applies`: the parse trees of
+source and output compared node by node, blank lines at the ends of comment blocks
+ignored); where it holds idempotence is a consequence of this theorem and the
+byte-identical correspondence. -/
+theorem C11_idempotent_partial (iw : Nat) (t t1 t2 : Tree) (out : Str)
+    (hw : wf formatters t = true) (hroot : rootSym formatters t = startSymbol)
+    (hfmt : formatTree iw t = some (.str out))
+    (hc : equivC t t1 = true) (hb : EquivB formatters t1 t2) :
+    formatTree iw t2 = some (.str out) := by
+  rw [C11_format_factors_blank iw t1 t2 hb]
+  exact C11_format_fixed_point_partial iw t t1 out hw hroot hfmt hc
+
+/-! Non-vacuity: `exTree3` is `exTree2` with a blank line in front (what a source with a
+leading blank line parses to); it is `EquivB` to `exTree2`, not `equivC` to it, and the
+theorem gives its formatted text from that of `exTree`. -/
+
+def exTree3 : Tree :=
+  .node (ix "module" ["comment-line*", "doc-line*", "import-line*", "attribute-line*", "type-definition*"]) [
+    .node (ix "comment-line*" ["comment-line", "comment-line*"]) [
+      .node (ix "comment-line" ["Comment?", "\"\\n\""]) [
+        .node (ix "Comment?" []) [], .tok "\"\\n\"" "\n".toList],
+      .node (ix "comment-line*" []) []],
+    .node (ix "doc-line*" ["doc-line", "doc-line*"]) [
+      .node (ix "doc-line" ["doc", "Comment?", "eol"]) [
+        .node (ix "doc" ["Documentation"]) [.tok "Documentation" "-- hi".toList],
+        .node (ix "Comment?" []) [],
+        .node (ix "eol" ["\"\\n\"", "comment-line*"]) [
+          .tok "\"\\n\"" "\r\n".toList,
+          .node (ix "comment-line*" ["comment-line", "comment-line*"]) [
+            .node (ix "comment-line" ["Comment?", "\"\\n\""]) [
+              .node (ix "Comment?" ["Comment"]) [.tok "Comment" "# c".toList],
+              .tok "\"\\n\"" "\n".toList],
+            .node (ix "comment-line*" []) []]]],
+      .node (ix "doc-line*" []) []],
+    .node (ix "import-line*" []) [],
+    .node (ix "attribute-line*" []) [],
+    .node (ix "type-definition*" []) []]
+
+theorem exTree23 : EquivB formatters exTree2 exTree3 := by
+  have hnil : handlerAt formatters (ix "comment-line*" []) = some .emptyList := by decide +kernel
+  have hcons : handlerAt formatters (ix "comment-line*" ["comment-line", "comment-line*"]) =
+      some .concatenateLists := by decide +kernel
+  refine .module _ _ _ _ _ (by decide +kernel) ⟨_, .trail (.atNil hnil (.nil hnil)), ?_⟩ rfl
+    (fun i _ _ => .refl _)
+  exact .lead hcons (by decide +kernel) (.trail (.atNil hnil (.nil hnil)))
+
+example : equivC exTree2 exTree3 = false := by decide +kernel
+
+example : formatTree 3 exTree3 = some (.str "-- hi\n# c\n".toList) :=
+  C11_idempotent_partial 3 exTree exTree2 exTree3 _ (by decide +kernel) (by decide +kernel)
+    (by decide +kernel) (by decide +kernel) exTree23
 
 /-- **The global row passes are projections** (a necessary ingredient of idempotence that
 needs no tokenizer): stripping leading/trailing empty comment rows, re-indenting blank and
